@@ -58,7 +58,15 @@ def _case(draw):
         prefix = [["attach_mid", draw(st.integers(0, 2)), parents.index("Top")],
                   ["attach_c", draw(st.integers(0, 3)), parents.index("Sub")],
                   ["set_leaf", draw(st.integers(0, 3)), draw(st.sampled_from(["x", "y"])), draw(_v), "attr"]]
-    return {
+    forced = None
+    if parents == ["Top"] and draw(st.integers(0, 5)) == 0:
+        # fault motif: the (single) dependent method raises while it handles the replacement of the mid-level object of a
+        # depth-2 path; afterwards the object attached now and the detached one are both assigned
+        methods = [sorted(set(draw(st.sets(st.sampled_from(DEPS[:5]), max_size=1))) | {"a.b.x"})]
+        l0, l1 = draw(st.sampled_from([(0, 1), (1, 2), (2, 3)]))
+        forced = {"init_a": 0, "mid_leaf0": l0, "raise": [0, 1],
+                  "ops": [["attach_leaf", 0, l1], ["set_leaf", l1, "x", draw(_v), "attr"], ["set_leaf", l0, "x", draw(_v), "attr"]]}
+    out = {
         "methods": methods,
         "leaf_vals": draw(st.lists(st.tuples(_v, _v), min_size=4, max_size=4)),
         "mid_vals": draw(st.lists(_v, min_size=3, max_size=3)),
@@ -75,6 +83,13 @@ def _case(draw):
         "sub_method": sub_method,
         "init_a1": draw(st.sampled_from([-1, 0, 1, 2])), "init_c1": draw(st.sampled_from([-1, 0, 1, 2, 3])),
     }
+    if forced:
+        out["init_a"] = forced["init_a"]
+        out["mid_leaf"][0] = forced["mid_leaf0"]
+        out["leaf_vals"] = [[i % 3, 0] for i in range(4)]           # pairwise different x for neighbouring leaves
+        out["raise_on_call"] = forced["raise"]
+        out["ops"] = forced["ops"] + out["ops"]
+    return out
 
 
 def strategy(tier):
@@ -180,6 +195,7 @@ def execute(case):
         else:
             setattr(obj, name, value)
 
+    judged_only = None      # after a dependent method raised: the only method still judged (see below)
     hist = {"replaced": set(), "assigned_after_replace": set(), "same_sub": False}
     for deps in case["methods"]:
         roots = [d.rsplit(".", 1)[0] for d in deps]
@@ -250,8 +266,13 @@ def execute(case):
                 hist["assigned_after_replace"].add(id(mid))
         if boomed:
             res.dontcare += 1       # a method raised: which other methods of the aborted dispatch still ran is not claimed
-            break                   # ... nor how much of the aborted dispatch (re-binding of the other methods' watchers) was done:
-                                    # the statement does not cover dependent methods that raise, the history ends here
+            # ... nor how much of the aborted dispatch (re-binding of the *other* methods' watchers) was done. The method
+            # that raised had already been re-bound when it was called: with a single parent the history goes on for that
+            # method alone (and without the census of detached objects); otherwise it ends here
+            if len(tops) > 1 or roc is None:
+                break
+            judged_only = roc[0]
+            continue
         for pi, top in enumerate(tops):
             if boomed:
                 break
@@ -259,6 +280,8 @@ def execute(case):
             detached_target = target_id is not None and target_id not in reach_before[pi]
             untouched_parent = acted_on is not None and acted_on != pi
             for slot, (i, deps) in enumerate(tmethods[pi]):
+                if judged_only is not None and i != judged_only:
+                    continue
                 n = calls.count((pi, i))
                 b, a = before[pi][slot], vector(top, deps)
                 keys = set(b) | set(a)
@@ -285,6 +308,8 @@ def execute(case):
                 elif not changed and n != 0:
                     res.fail("C07.spurious_call", f"{tag}: {who}m{i}{deps}: nothing reached through the current path changed, yet the "
                                                   f"method was called {n}x")
+        if judged_only is not None and len(tmethods[0]) > 1:
+            continue        # (with a single dependent method every watcher on the sub-objects is that method's: census kept)
         # objects attached to no parent keep no watcher on a parent's behalf
         now = set().union(*[reachable(t_) for t_ in tops])
         for name, pool in (("mid", mids), ("leaf", leaves)):
